@@ -70,6 +70,9 @@ pub fn run_c01(ctx: &Ctx) {
     run_prop(ctx, "roundtrip", shards, per, || gen::m_msg(6), judge_c01, mmsg_json);
     // boundary counts: 6 deterministic shapes at 16 counts from 255 to 65537
     run_boundary_counts(ctx, "boundary-counts", roundtrip_core);
+    ctx.append_rule(&format!(" Plus {}", crate::edits::RULE));
+    let (shards, per) = ctx.tier.pick((16, 2500), (16, 60000));
+    crate::edits::run(ctx, crate::edits::Mode::C01, shards, per);
 }
 
 fn fuzz_model(case: &Value) -> Result<MMsg, Fail> {
@@ -110,6 +113,9 @@ fn run_boundary_counts(ctx: &Ctx, sub: &'static str, f: impl Fn(&MMsg) -> Judge 
 }
 
 pub fn replay_c01(ctx: &Ctx, sub: &str, case: &Value) -> Judge {
+    if let Some(r) = crate::edits::replay(ctx, case) {
+        return r;
+    }
     if let Some(s) = case.get("big_shape").and_then(|s| s.as_u64()) {
         let m = big_model(s as usize, case.get("n").and_then(|n| n.as_u64()).unwrap_or(1) as usize).ok_or_else(|| Fail::new("bad-replay", "shape"))?;
         return roundtrip_core(&m);
@@ -205,9 +211,15 @@ pub fn run_c03(ctx: &Ctx) {
     let (shards, per) = ctx.tier.pick((16, 4000), (16, 60000));
     run_prop(ctx, "encode", shards, per, || gen::m_msg(6), |m, p| judge_c03(m, p, builds), mmsg_json);
     run_boundary_counts(ctx, "boundary-counts", |m| judge_encoding(m, &m.build().to_bytes()));
+    ctx.append_rule(&format!(" Plus {}", crate::edits::RULE));
+    let (shards, per) = ctx.tier.pick((16, 4000), (16, 80000));
+    crate::edits::run(ctx, crate::edits::Mode::C03, shards, per);
 }
 
 pub fn replay_c03(ctx: &Ctx, sub: &str, case: &Value) -> Judge {
+    if let Some(r) = crate::edits::replay(ctx, case) {
+        return r;
+    }
     if let Some(s) = case.get("big_shape").and_then(|s| s.as_u64()) {
         let m = big_model(s as usize, case.get("n").and_then(|n| n.as_u64()).unwrap_or(1) as usize).ok_or_else(|| Fail::new("bad-replay", "shape"))?;
         return judge_encoding(&m, &m.build().to_bytes());
